@@ -30,6 +30,10 @@ RULE = ('forward values of every nn op over the C02 generators (activations, sof
         'by a backward pass: every answer against the model, call k = call 1 bit for bit, and running_mean / running_var / weights / operands '
         'bit-identical before and after every call that is not a training-mode statistics update; `mf` programs of BatchNorm1d / Dropout / '
         'Linear objects alone or in a Sequential through train -> eval -> K forwards -> train -> eval with the state read after every phase. '
+        'WINDOW BOUNDARY (enumerated in every run, nothing drawn but operand values): for every windowed op (conv1d/2d, max / avg pooling 1-d / 2-d, unfold, fold), '
+        'each stride 1..4 and every value of L + 2p - d(k-1) - 1 in {-stride-1, ..., 0, 1} per axis (2-d: on H with W fine, on W with H fine, on both), realised '
+        'with varying kernel / dilation / padding inside the op\'s legality rules: rejected exactly when the model\'s convOut is none, floor(v / stride) + 1 '
+        'windows otherwise; an accepted geometry without a window is a failing input whatever shape comes back. '
         'Non-trivial: accepted configuration with more than one output element.')
 EXHAUSTIVE = {'quick': False, 'thorough': False}
 ASSUMPTIONS = ['float64 values (rel 1e-9; float32 leaves rel 1e-6); torch is used only as the oracle of the failing-input search',
@@ -428,6 +432,119 @@ def mfrep_case(rng, long=False):
 
 
 
+# ---- ACCEPT / REJECT BOUNDARY of the windowed ops ----------------------------------------------------------------------------
+# Enumerated in every run (nothing drawn but the operand values): for each stride 1..4 every value v = L + 2p - d(k-1) - 1 in
+# {-stride-1, ..., 0, 1} per axis (v < 0: no window fits, the op must raise; v >= 0: floor(v / stride) + 1 windows), realised with
+# varying kernel / dilation / padding inside each op's own legality rules (pooling: padding <= kernel // 2); 2-d ops with the boundary on
+# H (W fine), on W (H fine) and on both axes.
+BOUNDARY_1D = ['conv1d', 'max_pool1d', 'avg_pool1d']
+BOUNDARY_2D = ['conv2d', 'max_pool2d', 'avg_pool2d', 'unfold', 'fold']
+
+
+def _realisations(op, v):
+    """every (k, d, p, L) of the small grid with L + 2p - d(k-1) - 1 == v, L >= 1, legal for the op"""
+    out = []
+    for k in (1, 2, 3, 4, 5):
+        for d in (1, 2, 3):
+            if k == 1 and d > 1: continue
+            for p in (0, 1, 2):
+                if 'pool' in op and p > k // 2: continue
+                L = v + d * (k - 1) + 1 - 2 * p
+                if 1 <= L <= 9: out.append((k, d, p, L))
+    return out
+
+
+def _fine_axis(op, s, j):
+    """an axis with at least one window (v >= 0), varied with j"""
+    k, d, p = [(2, 1, 0), (3, 1, 1), (1, 1, 0), (2, 2, 1), (3, 2, 0)][j % 5]
+    L = d * (k - 1) + 1 - 2 * p + (j % 3) + s * (j % 2)
+    if L < 1: L += 2
+    return k, d, p, L
+
+
+def boundary_cases(rng, tier):
+    out, j = [], 0
+    nreal = 1 if tier == 'quick' else 6
+    for op in BOUNDARY_1D + BOUNDARY_2D:
+        two = op in BOUNDARY_2D
+        for s in (1, 2, 3, 4):
+            for v in range(-s - 1, 2):
+                reals = _realisations(op, v)
+                for where in (('H', 'W', 'HW') if two else ('L',)):
+                    for r in range(nreal):
+                        j += 1
+                        k, d, p, L = reals[(j * 7 + r * 3) % len(reals)]
+                        if not two:
+                            out.append(_boundary_case(rng, op, [(k, d, p, L, s, v)], where)); continue
+                        s2 = (1, 2, 3, 4)[(j + s) % 4]
+                        if where == 'HW':
+                            # the other axis sits on the same side of the boundary: no window either (any value of its own family) / just enough
+                            v2 = range(-s2 - 1, 0)[j % (s2 + 1)] if v < 0 else (0, 1, s2 - 1, s2)[j % 4]
+                            r2 = _realisations(op, v2)
+                            k2, d2, p2, L2 = r2[(j * 5) % len(r2)]
+                        else:
+                            k2, d2, p2, L2 = _fine_axis(op, s2, j)
+                            v2 = L2 + 2 * p2 - d2 * (k2 - 1) - 1
+                        a, b = (k, d, p, L, s, v), (k2, d2, p2, L2, s2, v2)
+                        out.append(_boundary_case(rng, op, [a, b] if where != 'W' else [b, a], where))
+    return out
+
+
+def _boundary_case(rng, op, axes, where):
+    k, d, p, L, s, v = [tuple(a[i] for a in axes) for i in range(6)]
+    fits = all(x >= 0 for x in v)
+    lo = [x // s_ + 1 if x >= 0 else None for x, s_ in zip(v, s)]
+    n, c = 1, 1 + (sum(L) % 2)
+    P = show_ints
+    V = lambda sh, kind='any': (sh, gen_ops.vals(rng, sh, kind), False)
+    if op == 'conv1d':
+        co, bias = 1 + (k[0] % 2), bool((L[0] + s[0]) % 2)
+        leaves = [V((n, c, L[0])), V((co, c, k[0]))] + ([V((co,))] if bias else [])
+        args = [int(bias), s[0], p[0], d[0]]
+    elif op == 'conv2d':
+        co, bias = 1 + (k[0] % 2), bool((L[0] + s[1]) % 2)
+        leaves = [V((n, c) + L), V((co, c) + k)] + ([V((co,))] if bias else [])
+        args = [int(bias), P(s), P(p), P(d)]
+    elif op in ('max_pool1d', 'avg_pool1d'):
+        leaves = [V((n, c, L[0]), 'distinct' if op[0] == 'm' else 'any')]
+        args = [k[0], s[0], p[0], d[0]]
+    elif op in ('max_pool2d', 'avg_pool2d'):
+        leaves = [V((n, c) + L, 'distinct' if op[0] == 'm' else 'any')]
+        args = [P(k), P(s), P(p), P(d)]
+    elif op == 'unfold':
+        leaves = [V((n, c) + L)]
+        args = [P(k), P(d), P(s), P(p), fbits([0.0, 0.0, 1.5][(L[0] + L[1]) % 3])]
+    else:       # fold: as many columns as there are windows; where no window fits, the count an axis of ONE window would give
+        cols = int(np.prod([x if x else 1 for x in lo])) if not fits or (sum(L) % 5) else int(np.prod(lo))
+        # (zero columns with a geometry without windows: the unchanged fold answers zeros of output_size instead of raising — reported
+        #  as a finding, see notes; `cols = 0` here makes it part of the enumeration once it is fixed or recorded in known_findings.jsonl)
+        leaves = [V((n, c * k[0] * k[1], cols))]
+        args = [P(L), P(k), P(d), P(s), P(p)]
+    cs = {'kind': 'op', 'op': op, 'leaves': leaves, 'args': args, 'malformed': not fits,
+          'bd': {'where': where, 'stride': list(s), 'v': list(v), 'fits': fits, 'out': lo}}
+    cs['lines'] = gen_ops.program(cs, rng) + [f't val {len(leaves)}']
+    return cs
+
+
+def _no_window(c):
+    """a windowed op whose geometry leaves no room for a single window along some axis (None: not a windowed op / not decidable here)"""
+    try:
+        op, a = c['op'], [str(x) for x in c['args']]
+        sh = tuple(c['leaves'][0][0])
+        pr = lambda t: tuple(common.parse_ints(t))
+        if op == 'conv1d': L, k, p, d = sh[2:], tuple(c['leaves'][1][0])[2:], (int(a[2]),), (int(a[3]),)
+        elif op == 'conv2d': L, k, p, d = sh[2:], tuple(c['leaves'][1][0])[2:], pr(a[2]), pr(a[3])
+        elif op in ('max_pool1d', 'avg_pool1d'): L, k, p, d = sh[2:], (int(a[0]),), (int(a[2]),), (int(a[3]),)
+        elif op in ('max_pool2d', 'avg_pool2d'): L, k, p, d = sh[2:], pr(a[0]), pr(a[2]), pr(a[3])
+        elif op == 'unfold': L, k, d, p = sh[2:], pr(a[0]), pr(a[1]), pr(a[3])
+        elif op == 'fold': L, k, d, p = pr(a[0]), pr(a[1]), pr(a[2]), pr(a[4])
+        else: return None
+        if not (len(L) == len(k) == len(p) == len(d)): return None
+        return any(l + 2 * p_ - d_ * (k_ - 1) - 1 < 0 for l, k_, p_, d_ in zip(L, k, p, d))
+    except Exception:
+        return None
+
+
 def extract():
     """the forward formulas of the activations / elementwise losses are re-read from cpu_ops.py (Generated/KernelFormulas.lean); the src_forward_* theorems are re-checked by the build"""
     import formulas
@@ -462,6 +579,8 @@ def cases(rng, tier):
         out.append(mfrep_case(rng))
     for j in range(3 if tier == 'quick' else 40):
         out.append(mfrep_case(rng, long=True))
+    # the accept / reject boundary of every windowed op, enumerated (the same geometries in every run)
+    out += boundary_cases(rng, tier)
     for c in out:
         c['desc'] = ' ; '.join(c['lines'])[:600]
     return out
@@ -791,6 +910,11 @@ def distribution(cases):
         for v, where in c.get('special', []):
             inc(f"special value {v} over {where} ({c['dt']})")
             inc(f"special values in {c['op']}")
+        if c.get('bd'):
+            b = c['bd']
+            inc(f"window boundary: {c['op']} on {b['where']} ({'accept' if b['fits'] else 'reject'})")
+            for s_, v_ in zip(b['stride'], b['v']): inc(f"window boundary: stride {s_}, L+2p-d(k-1)-1 = {v_}")
+            if not b['fits'] and any(-s_ < v_ < 0 for s_, v_ in zip(b['stride'], b['v'])): inc('window boundary: short of the dilated kernel by less than the stride')
         if c.get('nanmax'): inc('max pooling with NaN cells (judged against the definition)')
         if c.get('point'): inc(f"special values in some entries of a pointwise / row-wise op ({c['dt']})")
         if c.get('pointref'): inc('activation over NaN / float32 extremes (judged against the definition)')
@@ -891,13 +1015,18 @@ def oracle(c):
         return _repeat_oracle(c)
     io = tprog.run_program(c['lines'])
     nl = len(c['leaves'])
-    cc = {k: v for k, v in c.items() if k in ('kind', 'op', 'leaves', 'args', 'malformed', 'lines', 'dt', 'special')}
+    cc = {k: v for k, v in c.items() if k in ('kind', 'op', 'leaves', 'args', 'malformed', 'lines', 'dt', 'special', 'bd')}
     key = {'op': c['op']}
     try:
         ref = _torch_ref(c)
         ok = True
     except Exception as e:
         ref, ok = None, False
+    if io[nl] != 'rejected' and (not ok or ref is None) and _no_window(c):      # (ref None: a variant torch does not have, e.g. dilated average pooling)
+        try: shape = tprog.parse_arr(io[nl + 1]).shape
+        except Exception: shape = str(io[nl + 1])[:80]
+        return {'key': dict(key, cls='accepted-without-a-window'), 'case': cc,
+                'what': f"{c['op']}{c['args']} on input {tuple(c['leaves'][0][0])}: no window fits along some axis (L + 2p < d(k-1) + 1), torch raises; the implementation returned a result of shape {shape}"}
     if io[nl] == 'rejected':
         if ok and ref is not None and not c['malformed'] and ref.numel() > 0:
             return {'key': dict(key, cls='spurious-rejection'), 'case': cc, 'what': f"{c['op']}{c['args']} raised; torch accepts the configuration"}
